@@ -9,7 +9,7 @@ os.makedirs(d, exist_ok=True)
 shutil.copy(f"{src}/{name}.patch", f"{d}/patch.diff")
 shutil.copy(f"{src}/{name}_demo.patch", f"{d}/demo.patch")
 rep = ""
-rp = f"{src}/{name.split('_')[0]}_report{'2' if name[-1] in 'CD' else ''}.md"
+rp = f"{src}/{name.split('_')[0]}_report{'2' if name[-1] in 'CD' else '3' if name[-1] in 'EF' else ''}.md"
 if os.path.exists(rp):
     rep = open(rp).read()
 meta = {
